@@ -19,6 +19,7 @@ import (
 	"context"
 	"encoding/hex"
 	"fmt"
+	"io"
 	"net"
 
 	"strconv"
@@ -178,20 +179,27 @@ END\r\n
 				return fmt.Errorf("Byte count is not a number: %s", string(command))
 			}
 			count := v
+			if count < 0 {
+				return fmt.Errorf("Byte count is negative: %s", string(command))
+			}
 
+			// the data block is exactly <bytes> bytes followed by \r\n: keep its first
+			// 80 bytes (a single Read would return whatever happens to be buffered, which
+			// may be less than the block or reach into the next command)
 			buff := make([]byte, 80)
+			if count < len(buff) {
+				buff = buff[:count]
+			}
 
-			n, err := b.Read(buff)
-			if err != nil {
+			n, err := io.ReadFull(b, buff)
+			if err != nil && n == 0 && count > 0 {
 				return err
 			}
 
 			buff = buff[:n]
 
-			// discard rest of payload
-			count -= n
-
-			b.Discard(count)
+			// discard rest of payload and the terminating \r\n
+			b.Discard(count - n + 2)
 
 			s.ch.Send(event.New(
 				EventOptions,
